@@ -145,6 +145,60 @@ CHECKS = {
         note="Completeness (every field/literal represented) is a concrete sentinel check composed with C07/C08 "
              "non-interference; SQLAlchemy ORM lambdas are enumerated concretely (relationship.any() is not executable under "
              "CrossHair); ImportError for Django geo functions without GeoDjango is treated as the documented refusal."),
+    "C02": dict(
+        level="translation_validation", engine="sqlsmt", design="DESIGN.md section 4 C02",
+        technique="translation validation: z3 (bit-vector) equivalence of the SQL+parameters compiled by the live Django "
+                  "shorthand (independent SQL parser + SQLite model) with an OData reference semantics over an all-symbolic "
+                  "row; sat models replayed through the Django ORM on in-memory SQLite",
+        text="Per generated filter the live apply_odata_query(...).query.sql_with_params() is the program; z3 decides for "
+             "every row within the bound whether Django/SQLite returns exactly the rows OData keeps; counterexamples are "
+             "inserted with the ORM and the real queryset result is compared with the reference.",
+        note="Trusts z3, the SQLite model (validated against sqlite3 each run) and the OData reference; bounds as C01; "
+             "Python-UDF functions (date/time extraction, regex) are outside; known findings: SQLite LIKE case folding, "
+             "Django Concat reading NULL as '', constant null tests and nested lookups losing parentheses inside comparisons."),
+    "C03": dict(
+        level="translation_validation", engine="sqlsmt", design="DESIGN.md section 4 C03",
+        technique="translation validation: z3 equivalence of the three SQLAlchemy programs (select(Model), legacy Query, Core) "
+                  "compiled for SQLite with the OData reference and with each other over a symbolic row; keyword-case "
+                  "re-spellings must give SMT-equivalent programs; sat models replayed on in-memory SQLite",
+        text="Three live programs per filter, each proved equivalent to the reference and pairwise equivalent for all rows "
+             "in the bound; TRUE/True/true and operator-keyword case variants must compile to equivalent programs.",
+        note="Known findings handled by adjusted references / assumed functions rather than skipping: div as REAL division, "
+             "strpos()/concat() missing on this SQLite, LIKE case folding, unescaped field-valued LIKE patterns."),
+    "C04": dict(
+        level="translation_validation", engine="sqlsmt", design="DESIGN.md section 4 C04",
+        technique="translation validation in relational mode: z3 over a bounded symbolic database (2 parents, 3 children, 2 "
+                  "tags, 3 link rows, symbolic presence / cells / nullable foreign keys) - Django and SQLAlchemy programs "
+                  "(EXISTS, joins unrolled over slots) vs an OData reference for paths and any/all lambdas, and vs each other",
+        text="For every filter of the relational grammar (to-one paths to depth 3 incl. NULL keys, any(), any(x:p), "
+             "all(x:p) nested to depth 2, and/or/not) z3 decides over every database content within the slot bounds whether "
+             "each ORM returns exactly the denoted parents; counterexample databases are loaded into real SQLite through "
+             "each ORM.",
+        note="Referential integrity assumed; slot bounds 2/3/2/3; known findings (static regions, i.e. those programs are not "
+             "decided): SQLAlchemy lambda-body joins dropped, same table joined twice without alias, root column inside a "
+             "lambda body (both ORMs), SQLAlchemy self-referential navigation."),
+    "C15": dict(
+        level="translation_validation", engine="sqlsmt", design="DESIGN.md section 4 C15",
+        technique="z3 over the symbolic database: rows(apply(base, f)) == rows(base) intersect rows(f) for enumerated host "
+                  "queries (pre-filtered, pre-joined, ordered, annotated, legacy Query/select, Manager/QuerySet), structural "
+                  "checks on the parsed program (ORDER BY, prior conjuncts, each relationship joined once); registry clause as "
+                  "a labelled finite configuration sweep in fresh subprocesses",
+        text="The shorthand's program is compared, for all database contents in the bound, with the conjunction of the "
+             "host query and the filter; pre-existing ordering / conditions / annotations must survive and no relationship "
+             "may be joined twice.",
+        note="The sqlalchemy.func registry clause is a finite sweep (76 names x 2 import orders), not a solver verdict - "
+             "labelled as such in the evidence."),
+    "C08": dict(
+        level="model_checking", engine="chx", design="DESIGN.md section 4 C08",
+        technique="CrossHair symbolic execution (z3) of the Django visitor + QuerySet.filter + sql_with_params and of the "
+                  "SQLAlchemy visitors with the literal value symbolic; SQL template / clause-tree signature compared with a "
+                  "baseline instantiation; SQLAlchemy compiled text re-checked concretely",
+        text="Per syntactic position: for every literal value within the bound the Django SQL template and parameter count "
+             "equal the baseline's; the SQLAlchemy clause tree has no text / literal-column / literal-execute element and the "
+             "same signature as the baseline, the value travelling in a BindParameter.",
+        note="SQLAlchemy's compiler is trusted (BindParameter -> placeholder), re-checked concretely on adversarial values; "
+             "in-list values on Django are pool picks (its In lookup hashes them); known findings: conditional ESCAPE '/' "
+             "clause and inline boolean constants on SQLAlchemy (both pinned by the repo's tests)."),
 }
 
 NOT_YET = {}
@@ -238,6 +292,8 @@ SOURCE_COMMITS = [
     "014ecd9 fix: Django backend accepts the null literal outside of eq/ne comparisons",
     "7f92452 fix: SQLAlchemy ORM reports a path through a plain column as an invalid field",
     "b2f2aa1 fix: SQLAlchemy ORM only accepts mapped attributes as fields",
+    "568eac8 fix: Django 'ne' lookup no longer fails when one side yields a tuple of parameters",
+    "02e08bb fix: Django backend accepts a bare boolean field as a filter",
 ]
 
 if __name__ == "__main__":
